@@ -70,7 +70,14 @@ def build_gama_retry(ctx, **kw):
 
 
 def build_harness(ctx):
-    d = build_gama_retry(ctx, sanitize=True)
+    """the harness (itself compiled with ASan/UBSan) is linked against the sanitized libgama objects when that build
+    exists for this tree or in the thorough tier; on a cold tree in the quick tier against the release objects, which
+    the end-to-end oracle needs anyway (one CMake build instead of two; memory safety is not C14's subject)"""
+    san = ctx.build / f"gama-san-{ctx.tree_hash()}"
+    if ctx.thorough or (san / ".ok").exists():
+        d = build_gama_retry(ctx, sanitize=True, targets=("gama-local",))
+    else:
+        d = build_gama_retry(ctx, sanitize=False, targets=("gama-local",))
     objs = sorted(str(p) for p in (d / "CMakeFiles" / "libgama.dir").rglob("*.o"))
     if not objs:
         raise BuildError("c14_revise", "no libgama objects under " + str(d))
@@ -163,34 +170,41 @@ def same(r, m):
 
 # ------------------------------------------------------------------ specification (python) of what must be excluded
 
-REQ_XY = {"direction", "distance", "angle", "azimuth"}
-
-
-def item_points(st, it):
-    return [st["from"]] + [it[k] for k in ("to", "bs", "fs") if k in it]
+def usable(P, st, t, roles):
+    for role, g in c14_nets.GEOM[t]:
+        pid = roles[role]
+        if pid not in P or not st[pid]["k" + g]:
+            return False
+    for role, g in c14_nets.MEMBER[t]:
+        if not st[roles[role]]["a" + g]:
+            return False
+    return True
 
 
 def spec_expectation(net):
-    """what the property says must happen, derived from the injected defects only.
-    returns dict(removed_points={id: set(groups)}, active=[per cluster list of bool], outlying=[(ci,k)])
-    Only networks whose every other point has coordinates are handled (that is what make_case builds)."""
+    """what the property says must happen, derived from the network description only (python copy of the
+    specification tables Spec.geometry / Spec.member, the station rule, the injected blunders).
+    returns dict(removed_points={id: set(groups)}, active_rev / active =[per cluster list of bool])
+    Points with a status but without coordinates are taken as not computable (that is how make_case builds them)."""
     P = net["points"]
-    unusable = {pid for pid, p in P.items() if not p.get("approx", True) and p["status"] != "fix"}
+    st = {pid: c14_nets.pstate(p) for pid, p in P.items()}
     removed = {}
-    for pid in unusable:
+    for pid, s in st.items():
         g = set()
-        if "x" in P[pid]:
+        if s["had_xy"] and not s["kxy"]:
             g.add("xy")
-        if "z" in P[pid]:
+        if s["had_z"] and not s["kz"]:
             g.add("z")
-        removed[pid] = g
+        if g:
+            removed[pid] = g
     active, outl, active_rev = [], [], []
     for ci, o in enumerate(net["obs"]):
         if o["kind"] == "obs":
             fl = []
             for it in o["items"]:
-                pts = item_points(o, it)
-                fl.append(all(p in P and p not in unusable for p in pts))
+                roles = {"from": o["from"], "to": it.get("to", it.get("bs")), "bs": it.get("bs"), "fs": it.get("fs")}
+                fl.append(usable(P, st, it["t"], roles))
+
             def rule(fl):
                 tg = {it["to"] for it, a in zip(o["items"], fl) if a and it["t"] == "direction"}
                 if len(tg) < 2:
@@ -205,19 +219,94 @@ def spec_expectation(net):
             fl = rule(fl)
             active.append(fl)
         elif o["kind"] == "hdiffs":
-            active.append([it["from"] not in unusable and it["to"] not in unusable for it in o["items"]])
-            active_rev.append(active[-1])
+            fl = [usable(P, st, "dh", {"from": it["from"], "to": it["to"]}) for it in o["items"]]
+            active.append(fl)
+            active_rev.append(fl)
         elif o["kind"] == "vectors":
             fl = []
             for it in o["items"]:
-                a = it["from"] not in unusable and it["to"] not in unusable
-                fl += [a, a, a]
+                fl += [usable(P, st, t, {"from": it["from"], "to": it["to"]}) for t in ("xdiff", "ydiff", "zdiff")]
+            active.append(fl)
+            active_rev.append(fl)
+        elif o["kind"] == "coords":
+            fl = []
+            for it in o["items"]:
+                fl += [usable(P, st, c, {"id": it["id"]}) for c in ("x", "y", "z") if c in it]
             active.append(fl)
             active_rev.append(fl)
         else:
             active.append(None)
             active_rev.append(None)
-    return {"removed_points": removed, "active": active, "active_rev": active_rev, "outlying": outl}
+    return {"removed_points": removed, "active": active, "active_rev": active_rev, "outlying": outl, "state": st}
+
+
+def item_of(o, j):
+    if o["kind"] == "vectors":
+        it = dict(o["items"][j // 3])
+        it["t"] = ("xdiff", "ydiff", "zdiff")[j % 3]
+        return it
+    if o["kind"] == "coords":
+        k = 0
+        for it in o["items"]:
+            for c in ("x", "y", "z"):
+                if c in it:
+                    if k == j:
+                        return {"t": c, "from": it["id"]}
+                    k += 1
+    if o["kind"] == "hdiffs":
+        it = dict(o["items"][j])
+        it["t"] = "dh"
+        return it
+    return o["items"][j]
+
+
+def spec_check(net, res):
+    """the code's verdicts (in-process, after the revision and at the end) against the specification"""
+    fails = []
+    if res["crash"] or "loaded" not in res["meta"]:
+        return fails, None
+    ids = res["meta"]["loaded"].split()[2:]
+    blocks = parse_state(res["r"])
+    if len(blocks) < 2:
+        return fails, None
+    # a throw / numerical removal in the abs-term op truncates the script: the revision stage is still judged
+    complete = len(blocks) >= 5 and "flag" in blocks[2] and not (res["meta"].get("numeric") or res["meta"].get("throw"))
+    before = blocks[1]
+    absb, final = (blocks[2], blocks[4]) if complete else (None, before)
+    keep = [[c == "1" for c in cl] for cl in final["obs"]]
+    keep_rev = [[c == "1" for c in cl] for cl in before["obs"]]
+    spec = spec_expectation(net)
+    if all(a is not None for a in spec["active"]) and len(spec["active"]) == len(keep):
+        stages = list(zip(spec["active_rev"], keep_rev)) + (list(zip(spec["active"], keep)) if complete else [])
+        for sj, (a, k) in enumerate(stages):
+            ci = sj % len(keep)
+            if list(a) != list(k):
+                o = net["obs"][ci]
+                j = [x for x in range(min(len(a), len(k))) if a[x] != k[x]][0] if len(a) == len(k) else 0
+                it = item_of(o, j)
+                if it.get("blunder") is not None and sj >= len(keep):
+                    what = (f"abs-term: observation with positional misclosure {it['blunder']}*tol-abs "
+                            f"(stdev {it.get('stdev')}, sigma-apr {net['params']['sigma-apr']}) is "
+                            + ("kept" if k[j] else "removed") + ", expected " + ("removed" if k[j] else "kept"))
+                    site = "LocalNetwork::test_abs_term"
+                    obsinfo = {"t": it["t"], "f": it["blunder"], "stdev": it.get("stdev"), "verdict": "kept" if k[j] else "removed"}
+                    detail = f"cluster {ci} expected {a} got {k} ;obs=" + json.dumps(obsinfo)
+                else:
+                    frm = o.get("from", it.get("from"))
+                    what = (f"revision: observation {it.get('t', o['kind'])} {frm}->{it.get('to', it.get('bs'))}"
+                            + (f"/{it['fs']}" if it.get("fs") else "") + " is " + ("active" if k[j] else "passive")
+                            + ", the property says " + ("excluded" if k[j] else "kept")
+                            + (f" [only {net['matrix'][2]} of role {net['matrix'][1]} decides]" if net.get("matrix") else ""))
+                    site = "LocalRevision" if sj < len(keep) else "LocalNetwork::revision_observations"
+                    detail = f"cluster {ci} expected {a} got {k}; point states " + json.dumps(
+                        {p: "".join(c for c, f in (("K", s["kxy"]), ("A", s["axy"]), ("k", s["kz"]), ("a", s["az"])) if f) for p, s in spec["state"].items()})
+                fails.append((what, site, detail))
+                break
+    removed_ids = {ids[int(x.split(":")[0]) - 1] if int(x.split(":")[0]) <= len(ids) else x for x in final.get("removed", [])}
+    for pid in spec["removed_points"]:
+        if pid not in removed_ids:
+            fails.append((f"reported: point {pid} without coordinates is not in removed_points", "LocalNetwork::revision_points", ""))
+    return fails, ((ids, before, absb, final, keep, spec) if complete else None)
 
 
 # ------------------------------------------------------------------ end-to-end on gama-local
@@ -300,76 +389,38 @@ def compare_results(xa, xb):
     return diffs
 
 
-def oracle_one(ctx, gama, work, net, res, algs):
-    """end-to-end checks for one network; returns list of (what, site, detail), stats dict"""
+def oracle_one(ctx, gama, work, net, res, algs, parsed):
+    """end-to-end checks for one network (the in-process spec check passed); returns list of (what, site, detail), stats"""
     fails, stats = [], {}
-    if res["meta"].get("numeric") or res["meta"].get("throw") or res["crash"]:
-        stats["oracle_skipped_numeric"] = 1
-        return fails, stats
-    ids = res["meta"]["loaded"].split()[2:]
-    blocks = parse_state(res["r"])
-    # blocks: revise, revise, abs(flag,terms,obs), revobs, revise
-    if len(blocks) < 5 or "flag" not in blocks[2]:
-        stats["oracle_skipped_short"] = 1
-        return fails, stats
-    before, absb, final = blocks[1], blocks[2], blocks[4]
+    ids, before, absb, final, keep, spec = parsed
     groups = {}
     for k, st in final["pts"].items():
         groups[ids[int(k) - 1]] = (st[0] != "0", st[1] != "0")
-    keep = [[c == "1" for c in cl] for cl in final["obs"]]
-    spec = spec_expectation(net)
     nactive = sum(sum(1 for c in cl if c) for cl in keep)
-    # the code's verdicts against the specification derived from the injected defects
-    spec_ok = all(a is not None for a in spec["active"]) and len(spec["active"]) == len(keep)
-    if spec_ok:
-        keep_rev = [[c == "1" for c in cl] for cl in before["obs"]]
-        stages = list(zip(spec["active_rev"], keep_rev)) + list(zip(spec["active"], keep))
-        for sj, (a, k) in enumerate(stages):
-            ci = sj % len(keep)
-            if list(a) != list(k):
-                o = net["obs"][ci]
-                bad = [j for j in range(len(a)) if a[j] != k[j]]
-                j = bad[0]
-                it = o["items"][j] if o["kind"] == "obs" else o["items"][j // 3 if o["kind"] == "vectors" else j]
-                if it.get("blunder") is not None and sj >= len(keep):
-                    what = (f"abs-term: observation with positional misclosure {it['blunder']}*tol-abs "
-                            f"(stdev {it.get('stdev')}, sigma-apr {net['params']['sigma-apr']}) is "
-                            + ("kept" if k[j] else "removed") + ", expected " + ("removed" if k[j] else "kept"))
-                    site = "LocalNetwork::test_abs_term"
-                    obsinfo = {"t": it["t"], "f": it["blunder"], "stdev": it.get("stdev"), "verdict": "kept" if k[j] else "removed"}
-                else:
-                    what = (f"revision: observation {it.get('t', o['kind'])} {o.get('from', it.get('from'))}->"
-                            f"{it.get('to', it.get('bs'))} is " + ("active" if k[j] else "passive") + ", the property says "
-                            + ("excluded" if k[j] else "kept"))
-                    site = "LocalNetwork::revision_observations"
-                fails.append((what, site, f"cluster {ci} expected {a} got {k}" + (" ;obs=" + json.dumps(obsinfo) if site.endswith("abs_term") else "")))
-                break
-    # (b) every point made unused is recorded with a reason (in-process list)
-    removed_ids = {ids[int(x.split(":")[0]) - 1] if int(x.split(":")[0]) <= len(ids) else x for x in final.get("removed", [])}
-    for pid, g in spec["removed_points"].items():
-        if pid not in removed_ids:
-            fails.append((f"reported: point {pid} without coordinates is not in removed_points", "LocalNetwork::revision_points", ""))
-    if fails:
-        return fails, stats
     try:
         dele = c14_nets.delete_items(net, keep, groups)
-    except (ValueError, AssertionError) as e:
-        stats["oracle_skipped_delete"] = 1
-        return fails, stats
+    except (ValueError, AssertionError):
+        dele = None
+        stats["oracle_no_deletion_partial_item"] = 1
     p_orig = res["path"]
-    p_del = work.put(c14_nets.to_gkf(dele))
+    p_del = work.put(c14_nets.to_gkf(dele)) if dele is not None else None
     outl_expected = [i + 1 for i, t in enumerate(absb.get("terms", [])) if hex2float(t) != 0.0] if absb["flag"] == "1" else []
     for alg in algs:
         rc, text, xml, err = run_gama(gama, p_orig, alg, str(p_orig) + "." + alg)
-        rc2, text2, xml2, err2 = run_gama(gama, p_del, alg, str(p_del) + "." + alg)
-        stats["gama_runs"] = stats.get("gama_runs", 0) + 2
+        stats["gama_runs"] = stats.get("gama_runs", 0) + 1
+        rc2, text2, xml2, err2 = 0, None, None, ""
+        if p_del is not None:
+            rc2, text2, xml2, err2 = run_gama(gama, p_del, alg, str(p_del) + "." + alg)
+            stats["gama_runs"] += 1
         if rc not in (0, 1) or rc2 not in (0, 1):
             fails.append((f"gama-local --algorithm {alg} ended with rc={rc}/{rc2}", "gama-local", (err + err2)[-1500:]))
             continue
         rp = text_removed_points(text)
-        if any(any(w in reason for w in NUMERIC_REASONS) for _, reason in rp) or \
-           any(any(w in reason for w in NUMERIC_REASONS) for _, reason in text_removed_points(text2)) or \
-           text_equations(text) is None or text_equations(text2) is None or not xml or not xml2:
+        numeric = any(any(w in reason for w in NUMERIC_REASONS) for _, reason in rp) or text_equations(text) is None or not xml
+        if text2 is not None:
+            numeric = numeric or any(any(w in reason for w in NUMERIC_REASONS) for _, reason in text_removed_points(text2)) \
+                or text_equations(text2) is None or not xml2
+        if numeric:
             stats["oracle_numeric_removal"] = stats.get("oracle_numeric_removal", 0) + 1
             continue
         # (b) visible in --text
@@ -377,11 +428,11 @@ def oracle_one(ctx, gama, work, net, res, algs):
         for pid, reason in rp:
             listed.setdefault(pid, []).append(reason)
         for pid, (axy, az) in groups.items():
-            p = net["points"].get(pid)
-            if p is None:
+            s = spec["state"].get(pid)
+            if s is None:
                 continue
-            for has, act, word in (("x" in p, axy, "xy"), ("z" in p, az, "z")):
-                if has and not act:
+            for had, act, word in ((s["had_xy"], axy, "xy"), (s["had_z"], az, "z")):
+                if had and not act:
                     if not any(r.startswith("missing") and r.endswith(" " + word) for r in listed.get(pid, [])):
                         fails.append((f"reported: --text does not list point {pid} ({word}) under 'Removed points and coordinates' ({alg})",
                                       "GeneralParameters", text[:1500]))
@@ -392,10 +443,11 @@ def oracle_one(ctx, gama, work, net, res, algs):
             fails.append((f"reported: outlying-terms listing {text_outlying(text)} != observations removed {outl_expected} ({alg})",
                           "OutlyingAbsoluteTerms", text[:1500]))
         # (a) equals deletion
-        diffs = compare_results(xml, xml2)
-        if diffs:
-            fails.append((f"deletion: results differ from the input with the excluded items deleted ({alg}): " + "; ".join(diffs[:3]),
-                          "LocalNetwork", "\n".join(diffs[:20])))
+        if xml2 is not None:
+            diffs = compare_results(xml, xml2)
+            if diffs:
+                fails.append((f"deletion: results differ from the input with the excluded items deleted ({alg}): " + "; ".join(diffs[:3]),
+                              "LocalNetwork", "\n".join(diffs[:20])))
         if fails:
             break
     return fails, stats
@@ -412,6 +464,8 @@ def gen_nets(ctx, n_rev, n_e2e):
     nets = []
     for op in ("eq", "above", "below"):
         nets.append((c14_nets.boundary_case(op=op), True, True))
+    for k, m in enumerate(c14_nets.matrix_cases()):      # one decisive requirement per (type, role)
+        nets.append((m, True, [ALGS[k % 4]] if not ctx.thorough else True))
     corpus = ctx.verif / "corpus" / "C14"
     if corpus.exists():
         for f in sorted(corpus.glob("*.json")):
@@ -428,8 +482,8 @@ def gen_nets(ctx, n_rev, n_e2e):
 
 
 def check_nets(ctx, corr, nets, algs, label="net"):
-    exe = build_harness(ctx)
     gama = build_gama_retry(ctx, sanitize=False, targets=("gama-local",))
+    exe = build_harness(ctx)
     work = Work(ctx)
     try:
         res = run_inprocess(ctx, exe, work, [(n, a) for n, a, _ in nets])
@@ -461,10 +515,19 @@ def check_nets(ctx, corr, nets, algs, label="net"):
                 k = next((j for j, (a, b) in enumerate(zip(r["r"], r["m"])) if not lines_equal(a, b, rtol=1e-9)), min(len(r["r"]), len(r["m"])))
                 corr.disagree("revise", r["e"] + ["# gkf: " + c14_nets.to_gkf(net)], r["r"], r["m"],
                               why=f"first difference at result line {k}: impl `{(r['r'] + ['<none>'])[k][:200]}` model `{(r['m'] + ['<none>'])[k][:200]}`")
-            if e2e and acord:
-                jobs.append((net, acord, r))
+            if acord:
+                sfails, parsed = spec_check(net, r)
+                corr.count("spec_checked_networks")
+                if net.get("matrix"):
+                    corr.count("requirement_matrix_networks")
+                for what, site, detail in sfails[:1]:
+                    corr.fail(what, payload(net, acord), site, detail)
+                if e2e and parsed is not None and not sfails:
+                    jobs.append((net, acord, r, parsed, algs if e2e is True else [a for a in e2e if a in ALGS]))
+                elif e2e and parsed is None:
+                    corr.count("oracle_skipped_numeric")
         with concurrent.futures.ThreadPoolExecutor(max_workers=12) as ex:
-            futs = [(net, acord, ex.submit(oracle_one, ctx, gama, work, net, r, algs)) for net, acord, r in jobs]
+            futs = [(net, acord, ex.submit(oracle_one, ctx, gama, work, net, r, al, parsed)) for net, acord, r, parsed, al in jobs]
             for net, acord, f in futs:
                 fails, stats = f.result()
                 for k, v in stats.items():
@@ -490,6 +553,7 @@ def search(ctx, broken, corr):
     """something no longer checks: look harder on the implementation with the spec oracle (targeted families first)"""
     c2 = Corr()
     nets = [(c14_nets.boundary_case(op=op), True, True) for op in ("eq", "above", "below")]
+    nets += [(m, True, ["gso"]) for m in c14_nets.matrix_cases()]
     fams = [["dup_dir"], ["single_dir"], ["isolated"], ["one_element"], ["blunder"], ["blunder2"], ["unknown_to"],
             ["angle_fs_missing"], ["blunder_w"], ["zangle_mid"]]
     for k in range(ctx.size(140, 600)):
